@@ -11,6 +11,7 @@
 #include "quill/Frontend.h"
 #include "quill/LogMacros.h"
 #include "quill/Logger.h"
+#include "quill/UserClockSource.h"
 #include "quill/backend/ManualBackendWorker.h"
 #include "quill/core/VerifHooks.h"
 #include "quill/sinks/FileSink.h"
@@ -315,16 +316,36 @@ inline Parsed parse_msg(std::string const& m)
 }
 
 // ------------------------------------------------------------------------------------------ world
+// a user-supplied clock that runs one day ahead of the system clock (a replayed simulation): the backend must not
+// hold such statements back (the ordering gate does not apply to user clocks)
+struct FutureClock : quill::UserClockSource
+{
+  uint64_t now() const override
+  {
+    timespec ts{};
+    clock_gettime(CLOCK_REALTIME, &ts);
+    return static_cast<uint64_t>(ts.tv_sec + 86400) * 1000000000ull + static_cast<uint64_t>(ts.tv_nsec);
+  }
+};
+inline FutureClock& future_clock()
+{
+  static FutureClock* c = new FutureClock; // never destroyed (loggers may outlive static destruction order)
+  return *c;
+}
+
 struct LoggerDef
 {
   Lg* lg{nullptr};
   std::string name;
   std::vector<uint32_t> sinks; // indices into World::sinks, in attachment order
   bool removed{false};
+  bool tsc{false}; // timestamps are rdtsc values converted by the backend (order family, mode F)
 };
 
 struct World
 {
+  uint32_t tsc_mask{0}; // bit i: the i-th logger made by make_logger uses ClockSourceType::Tsc
+  uint32_t user_clock_mask{0}; // bit i: the i-th logger uses ClockSourceType::User with future_clock()
   std::string tag;
   std::vector<std::shared_ptr<RecSink>> sinks;
   std::vector<LoggerDef> loggers;
@@ -357,7 +378,18 @@ struct World
     LoggerDef d;
     d.name = tag + "_l" + std::to_string(loggers.size());
     d.sinks = sink_idx;
-    d.lg = Fe::create_or_get_logger(d.name, std::move(v), pfo, clk);
+    if (tsc_mask & (1u << (loggers.size() & 31)))
+    {
+      clk = quill::ClockSourceType::Tsc;
+      d.tsc = true;
+    }
+    quill::UserClockSource* uc = nullptr;
+    if (user_clock_mask & (1u << (loggers.size() & 31)))
+    {
+      clk = quill::ClockSourceType::User;
+      uc = &future_clock();
+    }
+    d.lg = Fe::create_or_get_logger(d.name, std::move(v), pfo, clk, uc);
     d.lg->set_log_level(quill::LogLevel::TraceL3);
     loggers.push_back(d);
     return d.lg;
